@@ -3985,7 +3985,8 @@ impl Zeroconf {
                 &mut self.monitors,
                 DaemonEvent::Announce(service_name, format!("{}:{}", hostname, &intf.name)),
             );
-            info.set_status(if_index, ServiceStatus::Announced);
+            // The status is left alone: whoever scheduled this resend had announced
+            // the service, and it may be probing a new address by now.
         } else {
             debug!("register-resend should not fail");
         }
